@@ -47,7 +47,8 @@ func TestMain(m *testing.M) {
 	probes := []string{"fault-free-accepted", "accepted-although-faulted-equal", "accepted-although-faulted-different", "accepted-fewer-keys-than-written",
 		"fallback-key-reached", "unknown-type-url-key-accepted", "stub-key-in-keyset", "weak-key-reached", "weak-refused-at-reader", "weak-refused-at-factory",
 		"duplicate-id-image-by-block-duplication", "round-trip-on-read-back-handle", "derived-keyset-exercised", "cut-image-accepted", "torn-write-prefix-read-back",
-		"splice-accepted", "changed-nonprimary-key-exercised-alone", "keyset-info-flip-accepted", "ciphertext-flip-rejected", "public-only-primitives-built", "pooled-key-in-keyset"}
+		"splice-accepted", "changed-nonprimary-key-exercised-alone", "keyset-info-flip-accepted", "ciphertext-flip-rejected", "public-only-primitives-built", "pooled-key-in-keyset",
+		"kms-envelope-key-in-keyset", "kms-envelope-wrapped-dek-on-power-of-two-boundary", "kms-envelope-unsupported-dek"}
 	for _, r := range rejectRules {
 		if r != "inner-syntax" { // needs a valid ciphertext around garbage: no storage fault gets there
 			probes = append(probes, "rejected:"+r)
@@ -55,6 +56,7 @@ func TestMain(m *testing.M) {
 	}
 	core.DeclareProbes(probes...)
 	stubkm.Register()
+	registerFakeKMS()
 	initPools()
 	core.Main(m, prop, "atrest", map[string]string{
 		"keyset writers (binary, JSON), insecurecleartextkeyset.Write, Handle.WriteWithAssociatedData / WriteWithNoSecrets": "real",
@@ -65,6 +67,7 @@ func TestMain(m *testing.M) {
 		"storage device / medium / reading source": "stub (simio.Device, fault transforms, simio.Source)",
 		"crypto/rand":     "stub (simrng; stdlib-internal randomness seeded per run via testing/cryptotest)",
 		"custom key type": "stub (stubkm key managers; real legacy adapters)",
+		"KMS behind KMS-envelope AEAD keys": "stub (tink's in-tree testing/fakekms); envelope AEAD, its key manager and DEK handling real",
 		"image classifier (why an image should be rejected)": "oracle only",
 	})
 }
@@ -358,6 +361,13 @@ func (w *world) buildKeyset(label string, maxKeys int, fixedClass string) *built
 		b.special = append(b.special, "stub")
 		b.keyTypes = append(b.keyTypes, "stub")
 		w.r.Probe("stub-key-in-keyset")
+	}
+	// sometimes a KMS-envelope AEAD key (remote key material: a KEK URI and a DEK template)
+	if class == "aead" && w.cfg.prot != "public" && rapid.IntRange(0, 5).Draw(t, label+"KMS") == 5 {
+		ks.Key = append(ks.Key, w.drawKMSKey(label, w.freshID(used)))
+		b.special = append(b.special, "kms-envelope")
+		b.keyTypes = append(b.keyTypes, "kms-envelope")
+		w.r.Probe("kms-envelope-key-in-keyset")
 	}
 	unknown := rapid.IntRange(0, 7).Draw(t, label+"UnknownURL") == 7
 	unknownKey := func(public bool) *tinkpb.Keyset_Key {
